@@ -90,4 +90,1023 @@ theorem runFn_err {M : Meths} {env : Env} {b : PBlock} {e : PErr} (h : execBlock
 end Send
 open Send
 
+/-! ## A. `send` = `State.send`
+
+  How the arguments, the object and its collaborators look to the interpreter:
+
+  * `target_address_type` is `None`, a member of `TargetAddressType`, or its integer value (`TatArg`);
+  * `data` is any value `dv`: what matters is the request `self.SendRequest(data=…, target_address_type=…)` builds from it.  The model
+    sees the arguments as `SendArgs` (`id`: the identity the harness gives the request, `size`: the declared size, `len(data)` for
+    bytes).  `SendRequest.__init__` calls `FiniteByteGenerator.__init__`, which raises `ValueError` when the declared size is negative
+    (`Src.FiniteByteGenerator_init`, third statement; the other `ValueError`s of the two constructors - not a tuple / iterable, not a
+    generator, size not an `int` - have no counterpart in `SendArgs`, whose `size` is an `Int`: the model's first check
+    `a.size < 0 → ValueError` is the only one of them it can express).  The constructed request is shown as the three scalars
+    `[id, size, target_address_type]` (`reqScs`): the generator's content (`src`, `instr` of the model's `Req`) is opaque to `send`;
+  * `send_request.generator.total_length()` reads the size of the request the local `send_request` holds
+    (`FiniteByteGenerator.total_length` returns `self._size`);
+  * `self.tx_queue` is a `queue.Queue()` WITHOUT maxsize (unbounded, as the model's list): `full()` is `False`; `put(r)` appends
+    the scalars of `r` to the history key `#txq` (which shows the model's `txQueue`, oldest first);
+  * `self.address.get_tx_payload_prefix()` is `bytes` `s.addr.tx.txPrefix` (stored by `Address.__init__`, AddressInit.lean);
+  * `complete_event` is a `threading.Event`: `clear()` writes `False` to the key `#event`, `is_set()` reads it, `wait(0)` returns at
+    once without changing it (single-threaded harness: nobody can complete the request during the call; the model's comment on
+    `State.send`);
+  * `self.post_send_callback` is `None` (`cb = false`: a bare `TransportLayerLogic`, what the model describes and the harness drives) or
+    a function (`cb = true`: the threaded `TransportLayer` installs one that wakes its worker up); calling it records its argument in
+    the key `#cb`, so that the theorem also says WHEN it is called: after `put`, with the request. -/
+
+def tatSc : Tat → Sc
+  | .physical => .enum "TargetAddressType" "Physical"
+  | .functional => .enum "TargetAddressType" "Functional"
+
+theorem tatPV_eq (t : Tat) : tatPV t = .sc (tatSc t) := by cases t <;> rfl
+
+/-- the integer value of a member of `TargetAddressType` -/
+def tatValue : Tat → Int
+  | .physical => 0
+  | .functional => 1
+
+/-- ... is the one dumped from the source -/
+theorem tatValue_dumped :
+    ("TargetAddressType.Physical", tatValue .physical) ∈ Src.constValues ∧
+    ("TargetAddressType.Functional", tatValue .functional) ∈ Src.constValues ∧
+    ("TargetAddressType.Physical", tatPV .physical) ∈ Src.consts ∧
+    ("TargetAddressType.Functional", tatPV .functional) ∈ Src.consts := by decide
+
+/-- the `target_address_type` argument: `None` (model: `none`), or a member / its integer value (model: `some t`) -/
+def TatArg : Option Tat → PV → Prop
+  | none, v => v = pnone
+  | some t, v => v = tatPV t ∨ v = pint (tatValue t)
+
+/-- a `SendRequest`, as far as `send` is concerned: identity, declared size, target address type -/
+def reqPV (id : Nat) (size : Int) (t : Tat) : PV := .list [.py (.int id), .py (.int size), tatSc t]
+
+def reqScs (r : Req) : List Sc := [.py (.int r.id), .py (.int r.size), tatSc r.tat]
+
+/-- the transmit queue, oldest first -/
+def txqPV (q : List Req) : PV := .list (q.flatMap reqScs)
+
+/-- the collaborators of `send`, in state `s`, for a call whose arguments the model sees as `a` (see the section comment) -/
+def sendMeths (s : State) (a : State.SendArgs) : Meths where
+  fn := fun name args env =>
+    match name, args with
+    | "isotp.address.TargetAddressType", [v] =>
+      if v = tatPV .physical ∨ v = pint 0 then .ok (tatPV .physical)
+      else if v = tatPV .functional ∨ v = pint 1 then .ok (tatPV .functional)
+      else .error (.exc .ValueError)
+    | "self.SendRequest#data#target_address_type", [_, .sc t] =>
+      if a.size < 0 then .error (.exc .ValueError) else .ok (.list [.py (.int a.id), .py (.int a.size), t])
+    | "send_request.generator.total_length", [] =>
+      (match env "send_request" with
+       | some (.list [_, sz, _]) => .ok (.sc sz)
+       | _ => .error (.exc .AttributeError))
+    | "self.tx_queue.full", [] => .ok (pbool false)
+    | "self.address.get_tx_payload_prefix", [] => .ok (.bytes s.addr.tx.txPrefix)
+    | "send_request.complete_event.is_set", [] =>
+      (match env "#event" with
+       | some (.sc (.py (.bool b))) => .ok (pbool b)
+       | _ => .error (.exc .AttributeError))
+    | n, _ => .error (.unsupported ("call " ++ n))
+  proc := fun name args env =>
+    match name, args with
+    | "send_request.complete_event.clear", [] => .ok (env.set "#event" (pbool false))
+    | "send_request.complete_event.wait", [.sc (.py (.int 0))] => .ok env
+    | "self.tx_queue.put", [.list r] =>
+      (match env "#txq" with
+       | some (.list h) => .ok (env.set "#txq" (.list (h ++ r)))
+       | _ => .error (.exc .AttributeError))
+    | "self.post_send_callback", [v] => .ok (env.set "#cb" v)
+    | n, _ => .error (.unsupported ("call " ++ n))
+
+/-- what `send` reads: its arguments and the attributes of `self`, in state `s` -/
+structure SendEnv (s : State) (a : State.SendArgs) (cb : Bool) (targ dv : PV) (env : Env) : Prop where
+  tatv : env "target_address_type" = some targ
+  tatArg : TatArg a.tat targ
+  data : env "data" = some dv
+  dflt : env "self.params.default_target_address_type" = some (tatPV s.cfg.defaultTat)
+  func : env "isotp.address.TargetAddressType.Functional" = some (tatPV .functional)
+  txdl : env "self.params.tx_data_length" = some (pint s.cfg.txDl)
+  blocking : env "self.params.blocking_send" = some (pbool s.cfg.blocking)
+  callback : env "self.post_send_callback" = some (if cb then .meth "callback" else pnone)
+  txq : env "#txq" = some (txqPV s.txQueue)
+  /-- with `blocking_send` the harness passes `send_timeout=0` (the parameter is not read otherwise) -/
+  timeout : s.cfg.blocking = true → env "send_timeout" = some (pint 0)
+
+namespace Send
+
+/-- the target address type `send` uses -/
+def tatOf (s : State) (a : State.SendArgs) : Tat := a.tat.getD s.cfg.defaultTat
+
+/-- `length_bytes` -/
+def lenBytes (s : State) : Int := if ((s.cfg.txDl : Nat) : Int) = 8 then 1 else 2
+
+/-- `maxlen` (a Python `int`: no truncation) -/
+def maxLen (s : State) : Int := (s.cfg.txDl : Int) - lenBytes s - (s.addr.tx.txPrefix.length : Int)
+
+/-- the three `ValueError` conditions of the source, in source order -/
+def Rejected (s : State) (a : State.SendArgs) : Prop :=
+  a.size < 0 ∨ a.size > 4294967295 ∨ (tatOf s a = .functional ∧ a.size > maxLen s)
+
+instance (s : State) (a : State.SendArgs) : Decidable (Rejected s a) := by unfold Rejected; exact inferInstance
+
+abbrev SS (n : Nat) : PStmt := nth Src.TransportLayerLogic_send n
+
+section stmts
+variable (s : State) (a : State.SendArgs) (env : Env)
+
+theorem meths_tat_enum (t : Tat) :
+    (sendMeths s a).fn "isotp.address.TargetAddressType" [tatPV t] env = .ok (tatPV t) := by
+  cases t <;> simp [sendMeths, tatPV]
+
+theorem meths_tat_int (t : Tat) :
+    (sendMeths s a).fn "isotp.address.TargetAddressType" [pint (tatValue t)] env = .ok (tatPV t) := by
+  cases t <;> simp [sendMeths, tatPV, tatValue]
+
+theorem meths_ctor (dv : PV) (t : Tat) :
+    (sendMeths s a).fn "self.SendRequest#data#target_address_type" [dv, tatPV t] env =
+      if a.size < 0 then .error (.exc .ValueError) else .ok (reqPV a.id a.size t) := by
+  rw [tatPV_eq]; rfl
+
+theorem meths_total_length (id : Nat) (sz : Int) (t : Tat) (h : env "send_request" = some (reqPV id sz t)) :
+    (sendMeths s a).fn "send_request.generator.total_length" [] env = .ok (pint sz) := by
+  show (match env "send_request" with
+       | some (PV.list [_, sz, _]) => Except.ok (PV.sc sz)
+       | _ => (Except.error (PErr.exc .AttributeError) : Except PErr PV)) = _
+  rw [h]; rfl
+
+theorem meths_full : (sendMeths s a).fn "self.tx_queue.full" [] env = .ok (pbool false) := rfl
+theorem meths_prefix : (sendMeths s a).fn "self.address.get_tx_payload_prefix" [] env = .ok (.bytes s.addr.tx.txPrefix) := rfl
+theorem meths_is_set (b : Bool) (h : env "#event" = some (pbool b)) :
+    (sendMeths s a).fn "send_request.complete_event.is_set" [] env = .ok (pbool b) := by
+  show (match env "#event" with
+       | some (PV.sc (.py (.bool b))) => Except.ok (pbool b)
+       | _ => (Except.error (PErr.exc .AttributeError) : Except PErr PV)) = _
+  rw [h]
+theorem meths_clear : (sendMeths s a).proc "send_request.complete_event.clear" [] env = .ok (env.set "#event" (pbool false)) := rfl
+theorem meths_wait : (sendMeths s a).proc "send_request.complete_event.wait" [pint 0] env = .ok env := rfl
+theorem meths_put (r h : List Sc) (hq : env "#txq" = some (.list h)) :
+    (sendMeths s a).proc "self.tx_queue.put" [.list r] env = .ok (env.set "#txq" (.list (h ++ r))) := by
+  show (match env "#txq" with
+       | some (PV.list h) => Except.ok (env.set "#txq" (PV.list (h ++ r)))
+       | _ => (Except.error (PErr.exc .AttributeError) : Except PErr Env)) = _
+  rw [hq]
+
+/-- statement 0: `if target_address_type is None: target_address_type = self.params.default_target_address_type`
+    `else: target_address_type = isotp.address.TargetAddressType(target_address_type)` -/
+theorem stmt0 (targ : PV) (h1 : env "target_address_type" = some targ) (h2 : TatArg a.tat targ)
+    (h3 : env "self.params.default_target_address_type" = some (tatPV s.cfg.defaultTat)) :
+    execStmt (sendMeths s a) env (SS 0) = .ok (.next (env.set "target_address_type" (tatPV (tatOf s a)))) := by
+  cases ht : a.tat with
+  | none =>
+    rw [ht] at h2; cases h2
+    simp [SS, nth, Src.TransportLayerLogic_send, execStmt, execBlock, eval, h1, h3, tatOf, ht]
+  | some t =>
+    rw [ht] at h2
+    rcases h2 with rfl | rfl
+    · have hn : (tatPV t == pnone) = false := by cases t <;> rfl
+      simp [SS, nth, Src.TransportLayerLogic_send, execStmt, execBlock, eval, evalArgs, h1, hn, tatOf, ht,
+        evalBuiltin_none "isotp.address.TargetAddressType" _ (by decide), meths_tat_enum]
+    · have hn : (pint (tatValue t) == pnone) = false := by cases t <;> rfl
+      simp [SS, nth, Src.TransportLayerLogic_send, execStmt, execBlock, eval, evalArgs, h1, hn, tatOf, ht,
+        evalBuiltin_none "isotp.address.TargetAddressType" _ (by decide), meths_tat_int]
+
+/-- statement 1: `send_request = self.SendRequest(data=data, target_address_type=target_address_type)` -/
+theorem stmt1 (dv : PV) (t : Tat) (h1 : env "data" = some dv) (h2 : env "target_address_type" = some (tatPV t)) :
+    execStmt (sendMeths s a) env (SS 1) =
+      if a.size < 0 then .error (.exc .ValueError) else .ok (.next (env.set "send_request" (reqPV a.id a.size t))) := by
+  simp only [SS, nth, Src.TransportLayerLogic_send, execStmt, eval, evalArgs, h1, h2, ok_bind,
+    evalBuiltin_none "self.SendRequest#data#target_address_type" _ (by decide), meths_ctor]
+  split <;> rfl
+
+/-- statement 2: `if send_request.generator.total_length() > 0xFFFFFFFF: raise ValueError` -/
+theorem stmt2 (id : Nat) (sz : Int) (t : Tat) (h : env "send_request" = some (reqPV id sz t)) :
+    execStmt (sendMeths s a) env (SS 2) =
+      if sz > 4294967295 then .error (.exc .ValueError) else .ok (.next env) := by
+  simp only [SS, nth, Src.TransportLayerLogic_send, execStmt, execBlock, eval, evalArgs, ok_bind,
+    evalBuiltin_none "send_request.generator.total_length" _ (by decide), meths_total_length s a env id sz t h, evalCmp_gt_pint,
+    truthy_pbool]
+  by_cases hc : (4294967295 : Int) < sz <;> simp [hc]
+
+/-- statement 3: `if self.tx_queue.full(): raise RuntimeError` (never: the queue is unbounded) -/
+theorem stmt3 : execStmt (sendMeths s a) env (SS 3) = .ok (.next env) := by
+  simp [SS, nth, Src.TransportLayerLogic_send, execStmt, execBlock, eval, evalArgs,
+    evalBuiltin_none "self.tx_queue.full" _ (by decide), meths_full]
+
+/-- the environment after statement 4 when the request is not rejected -/
+def env4 (s : State) (t : Tat) (env : Env) : Env :=
+  if t = .functional then (env.set "length_bytes" (pint (lenBytes s))).set "maxlen" (pint (maxLen s)) else env
+
+/-- statement 4: the single-frame limit of functional addressing -/
+theorem stmt4 (id : Nat) (sz : Int) (t : Tat) (h1 : env "target_address_type" = some (tatPV t))
+    (h2 : env "isotp.address.TargetAddressType.Functional" = some (tatPV .functional))
+    (h3 : env "self.params.tx_data_length" = some (pint s.cfg.txDl))
+    (h4 : env "send_request" = some (reqPV id sz t)) :
+    execStmt (sendMeths s a) env (SS 4) =
+      if t = .functional ∧ sz > maxLen s then .error (.exc .ValueError) else .ok (.next (env4 s t env)) := by
+  cases t with
+  | physical =>
+    simp [SS, nth, Src.TransportLayerLogic_send, execStmt, execBlock, eval, h1, h2, tatPV, env4]
+  | functional =>
+    have e1 : execStmt (sendMeths s a) env (.assign "length_bytes" (.ifexp (.cmp .eq (.var "self.params.tx_data_length") (.int 8))
+        (.int 1) (.int 2))) = .ok (.next (env.set "length_bytes" (pint (lenBytes s)))) := by
+      by_cases hc : ((s.cfg.txDl : Nat) : Int) = 8 <;> simp [execStmt, eval, h3, lenBytes, hc]
+    have e2 : execStmt (sendMeths s a) (env.set "length_bytes" (pint (lenBytes s)))
+        (.assign "maxlen" (.binop .sub (.binop .sub (.var "self.params.tx_data_length") (.var "length_bytes"))
+          (.call "len" (.cons (.call "self.address.get_tx_payload_prefix" .nil) .nil)))) =
+        .ok (.next ((env.set "length_bytes" (pint (lenBytes s))).set "maxlen" (pint (maxLen s)))) := by
+      simp [execStmt, eval, evalArgs, set_get, h3, evalBuiltin_none "self.address.get_tx_payload_prefix" _ (by decide), meths_prefix,
+        builtin_len_bytes, maxLen]
+    have e3 : execStmt (sendMeths s a) ((env.set "length_bytes" (pint (lenBytes s))).set "maxlen" (pint (maxLen s)))
+        (.ite (.cmp .gt (.call "send_request.generator.total_length" .nil) (.var "maxlen")) (.cons (.raise "ValueError") .nil) .nil) =
+        if sz > maxLen s then .error (.exc .ValueError)
+        else .ok (.next ((env.set "length_bytes" (pint (lenBytes s))).set "maxlen" (pint (maxLen s)))) := by
+      have hl := meths_total_length s a ((env.set "length_bytes" (pint (lenBytes s))).set "maxlen" (pint (maxLen s))) id sz .functional
+        (by simp [set_get, h4])
+      simp only [execStmt, execBlock, eval, evalArgs, ok_bind, set_get,
+        evalBuiltin_none "send_request.generator.total_length" _ (by decide), hl, evalCmp_gt_pint, truthy_pbool, if_true]
+      by_cases hc : maxLen s < sz <;> simp [hc]
+    have hcond : eval (sendMeths s a) env (.cmp .eq (.var "target_address_type") (.var "isotp.address.TargetAddressType.Functional")) =
+        .ok (pbool true) := by
+      simp [eval, h1, h2, tatPV]
+    simp only [SS, nth, Src.TransportLayerLogic_send, execStmt, hcond, ok_bind, truthy_pbool, if_true]
+    simp only [execBlock, e1, ok_bind, e2, e3]
+    by_cases hc : maxLen s < sz <;> simp [hc, env4]
+
+/-- statement 5: `if self.params.blocking_send: send_request.complete_event.clear()` -/
+theorem stmt5 (h : env "self.params.blocking_send" = some (pbool s.cfg.blocking)) :
+    execStmt (sendMeths s a) env (SS 5) =
+      .ok (.next (if s.cfg.blocking then env.set "#event" (pbool false) else env)) := by
+  cases hb : s.cfg.blocking <;>
+  simp [SS, nth, Src.TransportLayerLogic_send, execStmt, execBlock, eval, evalArgs, h, hb,
+    evalBuiltin_none "send_request.complete_event.clear" _ (by decide), meths_clear]
+
+/-- statement 6: `self.tx_queue.put(send_request)` -/
+theorem stmt6 (r h : List Sc) (h1 : env "send_request" = some (.list r)) (h2 : env "#txq" = some (.list h)) :
+    execStmt (sendMeths s a) env (SS 6) = .ok (.next (env.set "#txq" (.list (h ++ r)))) := by
+  simp [SS, nth, Src.TransportLayerLogic_send, execStmt, eval, evalArgs, h1,
+    evalBuiltin_none "self.tx_queue.put" _ (by decide), meths_put s a env r h h2]
+
+/-- statement 7: `if self.post_send_callback is not None: self.post_send_callback(send_request)` -/
+theorem stmt7 (cb : Bool) (r : PV) (h : env "self.post_send_callback" = some (if cb then .meth "callback" else pnone))
+    (h1 : env "send_request" = some r) :
+    execStmt (sendMeths s a) env (SS 7) = .ok (.next (if cb then env.set "#cb" r else env)) := by
+  have hp : ∀ v e, (sendMeths s a).proc "self.post_send_callback" [v] e = .ok (e.set "#cb" v) := fun _ _ => rfl
+  cases cb with
+  | false => simp [SS, nth, Src.TransportLayerLogic_send, execStmt, execBlock, eval, h]
+  | true =>
+    have hn : ((PV.meth "callback") != pnone) = true := rfl
+    simp [SS, nth, Src.TransportLayerLogic_send, execStmt, execBlock, eval, evalArgs, h, h1, hn,
+      evalBuiltin_none "self.post_send_callback" _ (by decide), hp]
+
+/-- statement 8: the blocking wait.  `raise isotp.errors.BlockingSendTimeout(...)` is dumped as `.raise "BlockingSendTimeout"`; that
+    class is not one of the builtin exception classes of the interpreter, whose outcome `.unsupported "raise BlockingSendTimeout"`
+    therefore STANDS FOR the Python exception `BlockingSendTimeout` (the model's `some .BlockingSendTimeout`). -/
+theorem stmt8 (h1 : env "self.params.blocking_send" = some (pbool s.cfg.blocking))
+    (h2 : s.cfg.blocking = true → env "send_timeout" = some (pint 0))
+    (h3 : s.cfg.blocking = true → env "#event" = some (pbool false)) :
+    execStmt (sendMeths s a) env (SS 8) =
+      if s.cfg.blocking then .error (.unsupported "raise BlockingSendTimeout") else .ok (.next env) := by
+  cases hb : s.cfg.blocking with
+  | false => simp [SS, nth, Src.TransportLayerLogic_send, execStmt, execBlock, eval, h1, hb]
+  | true =>
+    have e1 : execStmt (sendMeths s a) env (.expr (.call "send_request.complete_event.wait" (.cons (.var "send_timeout") .nil))) =
+        .ok (.next env) := by
+      simp [execStmt, eval, evalArgs, h2 hb, evalBuiltin_none "send_request.complete_event.wait" _ (by decide), meths_wait]
+    have e2 : eval (sendMeths s a) env (.not_ (.call "send_request.complete_event.is_set" .nil)) = .ok (pbool true) := by
+      simp [eval, evalArgs, evalBuiltin_none "send_request.complete_event.is_set" _ (by decide), meths_is_set s a env false (h3 hb)]
+    simp only [SS, nth, Src.TransportLayerLogic_send, execStmt, eval, h1, hb, ok_bind, truthy_pbool, if_true]
+    simp only [execBlock, e1, ok_bind]
+    simp only [execStmt, e2, ok_bind, truthy_pbool, if_true, execBlock]
+    rfl
+
+end stmts
+
+/-- the first eight statements of `send` (everything up to and including `put` and the callback test) -/
+abbrev P : PBlock := take Src.TransportLayerLogic_send 8
+
+end Send
+
+/-- `send` is its first eight statements followed by the blocking wait -/
+theorem send_split : Src.TransportLayerLogic_send = append Send.P (.cons (Send.SS 8) .nil) := rfl
+
+/-- the environment `send` builds when it does not raise `ValueError`: the locals `target_address_type`, `send_request` (`length_bytes`,
+    `maxlen` with functional addressing), the cleared event (`blocking_send`), and the queue with the new request at its end -/
+def sendEnv (s : State) (a : State.SendArgs) (cb : Bool) (env : Env) : Env :=
+  let t := tatOf s a
+  let e2 := (env.set "target_address_type" (tatPV t)).set "send_request" (reqPV a.id a.size t)
+  let e4 := env4 s t e2
+  let e5 := if s.cfg.blocking then e4.set "#event" (pbool false) else e4
+  let e6 := e5.set "#txq" (.list (s.txQueue.flatMap reqScs ++ [.py (.int a.id), .py (.int a.size), tatSc t]))
+  if cb then e6.set "#cb" (reqPV a.id a.size t) else e6
+
+/-- the names `send` writes -/
+def sendKeys : List String := ["target_address_type", "send_request", "length_bytes", "maxlen", "#event", "#txq", "#cb"]
+
+/-- **frame**: `send` writes nothing else (in particular no attribute of `self`) -/
+theorem sendEnv_frame (s : State) (a : State.SendArgs) (cb : Bool) (env : Env) (k : String) (hk : k ∉ sendKeys) :
+    sendEnv s a cb env k = env k := by
+  simp only [sendKeys, List.mem_cons, List.not_mem_nil, or_false, not_or] at hk
+  cases cb <;> cases hb : s.cfg.blocking <;> cases ht : tatOf s a <;> simp [sendEnv, env4, hb, ht, set_get, hk]
+
+namespace Send
+
+theorem sendEnv_event (s : State) (a : State.SendArgs) (cb : Bool) (env : Env) (hb : s.cfg.blocking = true) :
+    sendEnv s a cb env "#event" = some (pbool false) := by
+  cases cb <;> cases ht : tatOf s a <;> simp [sendEnv, env4, hb, ht, set_get]
+
+/-- **the first eight statements, run** -/
+theorem prefix_run (s : State) (a : State.SendArgs) (cb : Bool) (targ dv : PV) (env : Env) (hE : SendEnv s a cb targ dv env) :
+    execBlock (sendMeths s a) env P =
+      if Rejected s a then .error (.exc .ValueError) else .ok (.next (sendEnv s a cb env)) := by
+  show execBlock _ env (drop P 0) = _
+  rw [step_next (b := P) (n := 0) rfl (stmt0 s a env targ hE.tatv hE.tatArg hE.dflt)]
+  have h1 := stmt1 s a (env.set "target_address_type" (tatPV (tatOf s a))) dv (tatOf s a)
+    (by simp [set_get, hE.data]) (by simp [set_get])
+  by_cases c1 : a.size < 0
+  · rw [if_pos c1] at h1
+    rw [step_err (b := P) (n := 1) rfl h1, if_pos (show Rejected s a from Or.inl c1)]
+  rw [if_neg c1] at h1
+  rw [step_next (b := P) (n := 1) rfl h1]
+  have h2 := stmt2 s a ((env.set "target_address_type" (tatPV (tatOf s a))).set "send_request" (reqPV a.id a.size (tatOf s a)))
+    a.id a.size (tatOf s a) (by simp [set_get])
+  by_cases c2 : a.size > 4294967295
+  · rw [if_pos c2] at h2
+    rw [step_err (b := P) (n := 2) rfl h2, if_pos (show Rejected s a from Or.inr (Or.inl c2))]
+  rw [if_neg c2] at h2
+  rw [step_next (b := P) (n := 2) rfl h2, step_next (b := P) (n := 3) rfl (stmt3 s a _)]
+  have h4 := stmt4 s a ((env.set "target_address_type" (tatPV (tatOf s a))).set "send_request" (reqPV a.id a.size (tatOf s a)))
+    a.id a.size (tatOf s a) (by simp [set_get]) (by simp [set_get, hE.func]) (by simp [set_get, hE.txdl]) (by simp [set_get])
+  by_cases c3 : tatOf s a = .functional ∧ a.size > maxLen s
+  · rw [if_pos c3] at h4
+    rw [step_err (b := P) (n := 4) rfl h4, if_pos (show Rejected s a from Or.inr (Or.inr c3))]
+  rw [if_neg c3] at h4
+  rw [step_next (b := P) (n := 4) rfl h4, if_neg (by simp only [Rejected, not_or]; exact ⟨c1, c2, c3⟩)]
+  rw [step_next (b := P) (n := 5) rfl (stmt5 s a _ (by cases tatOf s a <;> simp [env4, set_get, hE.blocking]))]
+  rw [step_next (b := P) (n := 6) rfl (stmt6 s a _ [.py (.int a.id), .py (.int a.size), tatSc (tatOf s a)] (s.txQueue.flatMap reqScs)
+    (by cases tatOf s a <;> cases s.cfg.blocking <;> simp [env4, set_get, reqPV])
+    (by cases tatOf s a <;> cases s.cfg.blocking <;> simp [env4, set_get, hE.txq, txqPV]))]
+  rw [step_next (b := P) (n := 7) rfl (stmt7 s a _ cb (reqPV a.id a.size (tatOf s a))
+    (by cases tatOf s a <;> cases s.cfg.blocking <;> simp [env4, set_get, hE.callback])
+    (by cases tatOf s a <;> cases s.cfg.blocking <;> simp [env4, set_get]))]
+  rfl
+
+/-- **the ninth statement, in the environment the first eight leave** -/
+theorem last_run (s : State) (a : State.SendArgs) (cb : Bool) (targ dv : PV) (env : Env) (hE : SendEnv s a cb targ dv env) :
+    execStmt (sendMeths s a) (sendEnv s a cb env) (SS 8) =
+      if s.cfg.blocking then .error (.unsupported "raise BlockingSendTimeout") else .ok (.next (sendEnv s a cb env)) :=
+  stmt8 s a _ (by rw [sendEnv_frame _ _ _ _ _ (by decide)]; exact hE.blocking)
+    (fun hb => by rw [sendEnv_frame _ _ _ _ _ (by decide)]; exact hE.timeout hb)
+    (sendEnv_event s a cb env)
+
+/-- **the whole body, run** -/
+theorem send_run (s : State) (a : State.SendArgs) (cb : Bool) (targ dv : PV) (env : Env) (hE : SendEnv s a cb targ dv env) :
+    runFn (sendMeths s a) env Src.TransportLayerLogic_send =
+      if Rejected s a then .error (.exc .ValueError)
+      else if s.cfg.blocking then .error (.unsupported "raise BlockingSendTimeout")
+      else .ok (pnone, sendEnv s a cb env) := by
+  rw [send_split, runFn, execBlock_append, prefix_run s a cb targ dv env hE]
+  by_cases hr : Rejected s a
+  · simp only [if_pos hr]
+  · simp only [if_neg hr, execBlock, last_run s a cb targ dv env hE]
+    cases s.cfg.blocking <;> rfl
+
+/-! ### the model side -/
+
+/-- the request the model enqueues -/
+def newReq (s : State) (a : State.SendArgs) : Req :=
+  { id := a.id, size := a.size.toNat, src := a.src, tat := tatOf s a, instr := a.instr }
+
+/-- `State.send`, restated with the source's three conditions (`size + lengthBytes + prefixLen > txDl` over `Nat` is
+    `size > txDl - lengthBytes - prefixLen` over Python's unbounded integers: no hypothesis on `tx_data_length` is needed) -/
+theorem model_send (s : State) (a : State.SendArgs) :
+    s.send a =
+      if Rejected s a then (s, some .ValueError)
+      else ({ s with txQueue := s.txQueue ++ [newReq s a] }, if s.cfg.blocking then some .BlockingSendTimeout else none) := by
+  unfold State.send
+  by_cases c1 : a.size < 0
+  · simp [c1, Rejected]
+  by_cases c2 : a.size > 4294967295
+  · simp [c1, c2, Rejected]
+  have hsz : ((a.size.toNat : Nat) : Int) = a.size := Int.toNat_of_nonneg (by omega)
+  have hiff : (tatOf s a = .functional ∧ a.size > maxLen s) ↔
+      (a.tat.getD s.cfg.defaultTat = .functional ∧
+        s.cfg.txDl < a.size.toNat + (if s.cfg.txDl = 8 then 1 else 2) + s.txPrefixLen) := by
+    simp only [tatOf, maxLen, lenBytes, State.txPrefixLen]
+    constructor <;> rintro ⟨h1, h2⟩ <;> refine ⟨h1, ?_⟩ <;> split <;> split at h2 <;> omega
+  by_cases c3 : tatOf s a = .functional ∧ a.size > maxLen s
+  · have hr : Rejected s a := Or.inr (Or.inr c3)
+    have c3' := hiff.mp c3
+    simp [c1, c2, hr, c3'.1, c3'.2]
+  · have hr : ¬ Rejected s a := by simp only [Rejected, not_or]; exact ⟨c1, c2, c3⟩
+    have c3' : ¬ _ := fun h => c3 (hiff.mpr h)
+    simp only [if_neg hr]
+    cases hb : s.cfg.blocking <;> simp [c1, c2, c3', newReq, tatOf]
+
+theorem model_exc (s : State) (a : State.SendArgs) :
+    (s.send a).2 = if Rejected s a then some .ValueError else if s.cfg.blocking then some .BlockingSendTimeout else none := by
+  rw [model_send]; split <;> rfl
+
+theorem rejected_iff (s : State) (a : State.SendArgs) : Rejected s a ↔ (s.send a).2 = some .ValueError := by
+  rw [model_exc]
+  by_cases hr : Rejected s a
+  · simp [hr]
+  · cases hb : s.cfg.blocking <;> simp [hr]
+
+/-- the queue `sendEnv` shows is the model's new queue -/
+theorem sendEnv_txq (s : State) (a : State.SendArgs) (cb : Bool) (env : Env) (hr : ¬ Rejected s a) :
+    sendEnv s a cb env "#txq" = some (txqPV (s.send a).1.txQueue) := by
+  have hsz : ((a.size.toNat : Nat) : Int) = a.size :=
+    Int.toNat_of_nonneg (by have : ¬ a.size < 0 := fun h => hr (Or.inl h); omega)
+  rw [model_send, if_neg hr]
+  cases cb <;> simp [sendEnv, set_get, txqPV, reqScs, newReq, hsz]
+
+end Send
+
+/-! ### A: the agreement theorems -/
+
+/-- the model has three outcomes -/
+theorem send_model_outcomes (s : State) (a : State.SendArgs) :
+    (s.send a).2 = none ∨ (s.send a).2 = some .ValueError ∨ (s.send a).2 = some .BlockingSendTimeout := by
+  rw [model_exc]
+  by_cases hr : Rejected s a
+  · simp [hr]
+  · cases hb : s.cfg.blocking <;> simp [hr]
+
+/-- **`send` = `State.send`** for ALL states and arguments, in every environment that shows them (`SendEnv`): the call returns `None`
+    leaving `sendEnv` / raises `ValueError` / ends in the outcome that stands for `BlockingSendTimeout` (see `Send.stmt8`: the
+    interpreter has no such exception class, `raise isotp.errors.BlockingSendTimeout(...)` gives `.unsupported "raise BlockingSendTimeout"`)
+    exactly as the model returns `none` / `some .ValueError` / `some .BlockingSendTimeout` (`send_model_outcomes`: there is no fourth
+    case; in particular the `RuntimeError` of a full queue cannot happen, the queue being unbounded). -/
+theorem send_agrees (s : State) (a : State.SendArgs) (cb : Bool) (targ dv : PV) (env : Env) (hE : SendEnv s a cb targ dv env) :
+    runFn (sendMeths s a) env Src.TransportLayerLogic_send =
+      match (s.send a).2 with
+      | none => .ok (pnone, sendEnv s a cb env)
+      | some .ValueError => .error (.exc .ValueError)
+      | some _ => .error (.unsupported "raise BlockingSendTimeout") := by
+  rw [send_run s a cb targ dv env hE, model_exc]
+  by_cases hr : Rejected s a
+  · simp only [if_pos hr]
+  · simp only [if_neg hr]
+    cases hb : s.cfg.blocking <;> rfl
+
+/-- the run raises `ValueError` EXACTLY WHEN the model returns `some .ValueError` (negative declared size, more than `0xFFFFFFFF` bytes,
+    or more than one single frame with functional addressing); the model's state is then unchanged -/
+theorem send_raises_iff (s : State) (a : State.SendArgs) (cb : Bool) (targ dv : PV) (env : Env) (hE : SendEnv s a cb targ dv env) :
+    runFn (sendMeths s a) env Src.TransportLayerLogic_send = .error (.exc .ValueError) ↔ (s.send a).2 = some .ValueError := by
+  rw [send_run s a cb targ dv env hE, ← rejected_iff]
+  by_cases hr : Rejected s a
+  · simp [hr]
+  · cases hb : s.cfg.blocking <;> simp [hr]
+
+theorem send_rejected_state (s : State) (a : State.SendArgs) (h : (s.send a).2 = some .ValueError) : (s.send a).1 = s := by
+  rw [model_send, if_pos ((rejected_iff s a).mpr h)]
+
+/-- otherwise the model appends ONE request and changes nothing else ... -/
+theorem send_accepted_state (s : State) (a : State.SendArgs) (h : (s.send a).2 ≠ some .ValueError) :
+    (s.send a).1 = { s with txQueue := s.txQueue ++ [Send.newReq s a] } := by
+  rw [model_send, if_neg (fun hr => h ((rejected_iff s a).mp hr))]
+
+/-- ... and so does the source: whenever the model does not return `ValueError`, the first eight statements (up to `self.tx_queue.put`
+    and the callback test) run to completion and leave `sendEnv`, in which `#txq` shows the MODEL's new queue (identity, declared size and
+    target address type of every request, the new one last) and every name outside `sendKeys` - so every attribute of `self` - is
+    unchanged (`sendEnv_frame`). -/
+theorem send_enqueues (s : State) (a : State.SendArgs) (cb : Bool) (targ dv : PV) (env : Env) (hE : SendEnv s a cb targ dv env)
+    (h : (s.send a).2 ≠ some .ValueError) :
+    execBlock (sendMeths s a) env Send.P = .ok (.next (sendEnv s a cb env)) ∧
+    sendEnv s a cb env "#txq" = some (txqPV (s.send a).1.txQueue) ∧
+    ∀ k, k ∉ sendKeys → sendEnv s a cb env k = env k := by
+  have hr : ¬ Rejected s a := fun hr => h ((rejected_iff s a).mp hr)
+  refine ⟨?_, sendEnv_txq s a cb env hr, sendEnv_frame s a cb env⟩
+  rw [prefix_run s a cb targ dv env hE, if_neg hr]
+
+/-- non-blocking: the call returns `None` in that environment -/
+theorem send_nonblocking (s : State) (a : State.SendArgs) (cb : Bool) (targ dv : PV) (env : Env) (hE : SendEnv s a cb targ dv env)
+    (h : (s.send a).2 = none) :
+    runFn (sendMeths s a) env Src.TransportLayerLogic_send = .ok (pnone, sendEnv s a cb env) := by
+  rw [send_agrees s a cb targ dv env hE, h]
+
+/-- blocking (`send_timeout=0`, nobody completes the request meanwhile): the request IS enqueued (first eight statements, as in
+    `send_enqueues`), then the ninth statement raises in that environment; `send_split` says the body is exactly these two parts -/
+theorem send_blocking_enqueues_then_raises (s : State) (a : State.SendArgs) (cb : Bool) (targ dv : PV) (env : Env) (hE : SendEnv s a cb targ dv env)
+    (h : (s.send a).2 = some .BlockingSendTimeout) :
+    execBlock (sendMeths s a) env Send.P = .ok (.next (sendEnv s a cb env)) ∧
+    execStmt (sendMeths s a) (sendEnv s a cb env) (Send.SS 8) = .error (.unsupported "raise BlockingSendTimeout") ∧
+    runFn (sendMeths s a) env Src.TransportLayerLogic_send = .error (.unsupported "raise BlockingSendTimeout") := by
+  have hne : (s.send a).2 ≠ some .ValueError := by rw [h]; decide
+  have hb : s.cfg.blocking = true := by
+    have hr : ¬ Rejected s a := fun hr => hne ((rejected_iff s a).mp hr)
+    rw [model_exc, if_neg hr] at h
+    cases hb : s.cfg.blocking
+    · simp [hb] at h
+    · rfl
+  refine ⟨(send_enqueues s a cb targ dv env hE hne).1, ?_, ?_⟩
+  · rw [last_run s a cb targ dv env hE, hb]; rfl
+  · rw [send_agrees s a cb targ dv env hE, h]
+
+/-- non-vacuity: for every state, argument record and admissible `target_address_type` value there is such an environment -/
+def sendEnvOf (s : State) (cb : Bool) (targ : PV) : Env :=
+  envOf [("target_address_type", targ), ("data", .meth "data"), ("send_timeout", pint 0),
+    ("self.params.default_target_address_type", tatPV s.cfg.defaultTat),
+    ("isotp.address.TargetAddressType.Functional", tatPV .functional),
+    ("self.params.tx_data_length", pint s.cfg.txDl), ("self.params.blocking_send", pbool s.cfg.blocking),
+    ("self.post_send_callback", if cb then .meth "callback" else pnone), ("#txq", txqPV s.txQueue)]
+
+theorem sendEnvOf_ok (s : State) (a : State.SendArgs) (cb : Bool) (targ : PV) (h : TatArg a.tat targ) :
+    SendEnv s a cb targ (.meth "data") (sendEnvOf s cb targ) :=
+  ⟨rfl, h, rfl, rfl, rfl, rfl, rfl, rfl, rfl, fun _ => rfl⟩
+
+example (s : State) (a : State.SendArgs) (h : a.tat = none) : SendEnv s a false pnone (.meth "data") (sendEnvOf s false pnone) :=
+  sendEnvOf_ok s a false pnone (by rw [h]; rfl)
+example (s : State) (a : State.SendArgs) (t : Tat) (h : a.tat = some t) :
+    SendEnv s a true (pint (tatValue t)) (.meth "data") (sendEnvOf s true (pint (tatValue t))) :=
+  sendEnvOf_ok s a true _ (by rw [h]; exact Or.inr rfl)
+
+/-- all three outcomes occur -/
+example : ((default : State).send { id := 1, size := 3, src := [1, 2, 3] }).2 = none := by decide
+example : ((default : State).send { id := 1, size := -1, src := [] }).2 = some .ValueError := by decide
+example : ({ (default : State) with cfg := { blocking := true } }.send { id := 1, size := 3, src := [1, 2, 3] }).2 =
+    some .BlockingSendTimeout := by decide
+
+/-! ## B. `SendRequest.complete(success)`
+
+  `self.success = success; self.complete_event.set()`.  What matters to a thread blocked in `send` (and to the harness, which observes
+  completions) is the ORDER: whoever is woken by the event must already see the new `success`. -/
+
+/-- **`complete`, for EVERY semantics `M` of the event**: the body is exactly ONE call of the primitive `self.complete_event.set()`, made
+    in the environment in which `self.success` ALREADY holds the argument; the result of the call is the result of that primitive
+    (its environment, `None` returned).  Nothing else is written. -/
+theorem complete_agrees (M : Meths) (env : Env) (v : PV) (h : env "success" = some v) :
+    runFn M env Src.TransportLayerLogic_SendRequest_complete =
+      (M.proc "self.complete_event.set" [] (env.set "self.success" v)).map (fun e => (pnone, e)) := by
+  simp only [runFn, Src.TransportLayerLogic_SendRequest_complete, execBlock, execStmt, eval, evalArgs, h, ok_bind,
+    evalBuiltin_none "self.complete_event.set" _ (by decide)]
+  cases M.proc "self.complete_event.set" [] (env.set "self.success" v) <;> rfl
+
+/-- the event of request `id`, as its observers see it: `set()` sets the flag `#event` and records in the history `#done` the pair
+    `(id, self.success)` an observer woken at that moment reads (an `AttributeError` if `success` were not assigned yet) -/
+def completeMeths (id : Nat) : Meths where
+  fn := fun n _ _ => .error (.unsupported ("call " ++ n))
+  proc := fun name args env =>
+    match name, args with
+    | "self.complete_event.set", [] =>
+      (match env "self.success", env "#done" with
+       | some (.sc sv), some (.list h) => .ok ((env.set "#event" (pbool true)).set "#done" (.list (h ++ [.py (.int id), sv])))
+       | _, _ => .error (.exc .AttributeError))
+    | n, _ => .error (.unsupported ("call " ++ n))
+
+/-- **`complete(ok)` records `(id, ok)`**: the model's `emit (.done r.id ok)` (and the primitive
+    `self.active_send_request.complete(ok)` of LayerTxHelpers.lean: `#done` gains the two scalars `id, ok`), whatever `self.success` was
+    before (`old`: the constructor's `False`, or anything else) -/
+theorem complete_records_done (id : Nat) (ok : Bool) (env : Env) (hist : List Sc) (h1 : env "success" = some (pbool ok))
+    (h2 : env "#done" = some (.list hist)) :
+    runFn (completeMeths id) env Src.TransportLayerLogic_SendRequest_complete =
+      .ok (pnone, ((env.set "self.success" (pbool ok)).set "#event" (pbool true)).set "#done"
+        (.list (hist ++ [.py (.int id), .py (.bool ok)]))) := by
+  rw [complete_agrees _ env _ h1]
+  show Except.map _ (match (env.set "self.success" (pbool ok)) "self.success", (env.set "self.success" (pbool ok)) "#done" with
+       | some (PV.sc sv), some (PV.list h) =>
+         Except.ok (((env.set "self.success" (pbool ok)).set "#event" (pbool true)).set "#done" (PV.list (h ++ [.py (.int id), sv])))
+       | _, _ => (Except.error (PErr.exc .AttributeError) : Except PErr Env)) = _
+  have e1 : (env.set "self.success" (pbool ok)) "self.success" = some (pbool ok) := by simp [set_get]
+  have e2 : (env.set "self.success" (pbool ok)) "#done" = some (.list hist) := by simp [set_get, h2]
+  rw [e1, e2]; rfl
+
+/-! ## C. `set_address` = `mkSym` (symmetric) / accepted (asymmetric) / `ValueError` (anything else) -/
+
+/-- the argument of `set_address` -/
+inductive AddrArg where
+  | sym (h : Half)          -- an `isotp.Address` (constructed: `mkAddress` gave `h`)
+  | asym (ad : Addr)        -- an `isotp.AsymmetricAddress` (constructed: `mkAsym` gave `ad`)
+  | other                   -- not an address object
+
+/-- what the layer holds afterwards: `mkSym` for a symmetric address (rejected when partial), the two halves of an asymmetric one -/
+def setAddrSpec : AddrArg → Except PyExc Addr
+  | .sym h => mkSym h
+  | .asym ad => .ok ad
+  | .other => .error .ValueError
+
+/-- The collaborators of `set_address`: `isinstance(address, (Address, AsymmetricAddress))`; `address.is_partial_address()`
+    (`is_partial_address_agrees`, AddressFns.lean, for an `Address`; the constant `False` for an `AsymmetricAddress`); the two identifier
+    getters, which answer for the NEW address and therefore only once `self.address` holds it (`get_tx_arbitration_id_agrees` /
+    `get_rx_arbitration_id_agrees`, AddressFns.lean, for each half). -/
+def setAddrMeths (arg : AddrArg) : Meths where
+  fn := fun name args env =>
+    match name, args with
+    | "isinstance_Address_AsymmetricAddress", [_] => .ok (pbool (match arg with | .other => false | _ => true))
+    | "address.is_partial_address", [] =>
+      (match arg with
+       | .sym h => .ok (pbool (h.txOnly || h.rxOnly))
+       | .asym _ => .ok (pbool false)
+       | .other => .error (.exc .AttributeError))
+    | "self.address.get_tx_arbitration_id", [v] =>
+      if env "self.address" = some (.meth "address") ∧ v = tatPV .physical then
+        (match setAddrSpec arg with
+         | .ok ad => .ok (pint (ad.tx.txId .physical))
+         | .error _ => .error (.unsupported "getter of a rejected address"))
+      else .error (.unsupported "getter of another address")
+    | "self.address.get_rx_arbitration_id", [v] =>
+      if env "self.address" = some (.meth "address") ∧ v = tatPV .physical then
+        (match setAddrSpec arg with
+         | .ok ad => .ok (pint (ad.rx.rxId .physical))
+         | .error _ => .error (.unsupported "getter of a rejected address"))
+      else .error (.unsupported "getter of another address")
+    | n, _ => .error (.unsupported ("call " ++ n))
+  proc := fun n _ _ => .error (.unsupported ("call " ++ n))
+
+/-- the primitive `address.is_partial_address()` IS the interpreted source of `Address.is_partial_address` on the object -/
+theorem setAddrMeths_partial_is_source (h : Half) (env : Env) :
+    (setAddrMeths (.sym h)).fn "address.is_partial_address" [] env = retOf (halfEnv h) Src.Address_is_partial_address := by
+  rw [is_partial_address_agrees]; rfl
+
+/-- the environment `set_address` leaves: the new address and the two locals -/
+def setAddrEnv (ad : Addr) (env : Env) : Env :=
+  ((env.set "self.address" (.meth "address")).set "txid" (pint (ad.tx.txId .physical))).set "rxid" (pint (ad.rx.rxId .physical))
+
+namespace Send
+
+abbrev AS (n : Nat) : PStmt := nth Src.TransportLayerLogic_set_address n
+abbrev AR (n : Nat) : PBlock := drop Src.TransportLayerLogic_set_address n
+
+/-- the test of the two "reserved identifier" warnings, `x > 0x7F4 and x < 0x7F6 or x > 0x7FA and x < 0x7FB`, on an `int`: it holds
+    exactly for `x = 0x7F5` (the second range is EMPTY for integers, and the first is the single identifier between its bounds - whereas
+    the message speaks of `0x7F4-0x7F6 and 0x7FA-0x7FB`: a suspicious condition, but it only guards a `logger.warning`) -/
+theorem reserved_test (M : Meths) (env : Env) (k : String) (x : Int) (h : env k = some (pint x)) :
+    eval M env (.or_ (.and_ (.cmp .gt (.var k) (.int 2036)) (.cmp .lt (.var k) (.int 2038)))
+      (.and_ (.cmp .gt (.var k) (.int 2042)) (.cmp .lt (.var k) (.int 2043)))) = .ok (pbool (decide (x = 2037))) := by
+  simp only [eval, h, ok_bind, evalCmp_gt_pint, evalCmp_lt_pint, truthy_pbool]
+  by_cases h1 : (2036 : Int) < x <;> by_cases h2 : x < 2038 <;> by_cases h3 : (2042 : Int) < x <;> by_cases h4 : x < 2043 <;>
+    simp [h1, h2, h3, h4] <;> omega
+
+/-- a warning statement (the `logger.warning` call itself is dropped by the dumper) changes nothing -/
+theorem warn_stmt (M : Meths) (env : Env) (k : String) (x : Int) (h : env k = some (pint x)) :
+    execStmt M env (.ite (.or_ (.and_ (.cmp .gt (.var k) (.int 2036)) (.cmp .lt (.var k) (.int 2038)))
+      (.and_ (.cmp .gt (.var k) (.int 2042)) (.cmp .lt (.var k) (.int 2043)))) .nil .nil) = .ok (.next env) := by
+  simp only [execStmt, reserved_test M env k x h, ok_bind, truthy_pbool, execBlock]
+  split <;> rfl
+
+end Send
+
+/-- what `set_address` reads besides its argument -/
+structure SetAddrEnv (env : Env) : Prop where
+  address : env "address" = some (.meth "address")
+  phys : env "isotp.TargetAddressType.Physical" = some (tatPV .physical)
+
+/-- **`set_address`** for EVERY argument: `ValueError` exactly when the argument is not an address or is a partial symmetric address
+    (`mkSym`); otherwise the address is stored (then `self.address` answers with the identifiers of the NEW address, which end up in the
+    locals `txid`, `rxid`), the two warning tests are evaluated, `None` is returned and nothing else is written. -/
+theorem set_address_agrees (arg : AddrArg) (env : Env) (hE : SetAddrEnv env) :
+    runFn (setAddrMeths arg) env Src.TransportLayerLogic_set_address =
+      match setAddrSpec arg with
+      | .ok ad => .ok (pnone, setAddrEnv ad env)
+      | .error _ => .error (.exc .ValueError) := by
+  have hinst : ∀ e, (setAddrMeths arg).fn "isinstance_Address_AsymmetricAddress" [.meth "address"] e =
+      .ok (pbool (match arg with | .other => false | _ => true)) := fun _ => rfl
+  have s0 : execStmt (setAddrMeths arg) env (AS 0) =
+      match arg with | .other => .error (.exc .ValueError) | _ => .ok (.next env) := by
+    cases arg <;>
+    simp [AS, nth, Src.TransportLayerLogic_set_address, execStmt, execBlock, eval, evalArgs, hE.address,
+      evalBuiltin_none "isinstance_Address_AsymmetricAddress" _ (by decide), hinst]
+  -- the rest of the body, for an accepted address
+  have rest : ∀ ad : Addr, setAddrSpec arg = .ok ad →
+      execBlock (setAddrMeths arg) env (AR 2) = .ok (.next (setAddrEnv ad env)) := by
+    intro ad hs
+    have htx : ∀ e, e "self.address" = some (.meth "address") →
+        (setAddrMeths arg).fn "self.address.get_tx_arbitration_id" [tatPV .physical] e = .ok (pint (ad.tx.txId .physical)) := by
+      intro e he
+      show (if e "self.address" = some (.meth "address") ∧ tatPV .physical = tatPV .physical then
+        (match setAddrSpec arg with
+         | .ok ad => Except.ok (pint (ad.tx.txId .physical))
+         | .error _ => (Except.error (PErr.unsupported "getter of a rejected address") : Except PErr PV))
+        else _) = _
+      rw [if_pos ⟨he, rfl⟩, hs]
+    have hrx : ∀ e, e "self.address" = some (.meth "address") →
+        (setAddrMeths arg).fn "self.address.get_rx_arbitration_id" [tatPV .physical] e = .ok (pint (ad.rx.rxId .physical)) := by
+      intro e he
+      show (if e "self.address" = some (.meth "address") ∧ tatPV .physical = tatPV .physical then
+        (match setAddrSpec arg with
+         | .ok ad => Except.ok (pint (ad.rx.rxId .physical))
+         | .error _ => (Except.error (PErr.unsupported "getter of a rejected address") : Except PErr PV))
+        else _) = _
+      rw [if_pos ⟨he, rfl⟩, hs]
+    have s2 : execStmt (setAddrMeths arg) env (AS 2) = .ok (.next (env.set "self.address" (.meth "address"))) := by
+      simp [AS, nth, Src.TransportLayerLogic_set_address, execStmt, eval, hE.address]
+    have s3 : execStmt (setAddrMeths arg) (env.set "self.address" (.meth "address")) (AS 3) =
+        .ok (.next ((env.set "self.address" (.meth "address")).set "txid" (pint (ad.tx.txId .physical)))) := by
+      simp [AS, nth, Src.TransportLayerLogic_set_address, execStmt, eval, evalArgs, set_get, hE.phys,
+        evalBuiltin_none "self.address.get_tx_arbitration_id" _ (by decide),
+        htx (env.set "self.address" (.meth "address")) (by simp [set_get])]
+    have s4 : execStmt (setAddrMeths arg) ((env.set "self.address" (.meth "address")).set "txid" (pint (ad.tx.txId .physical))) (AS 4) =
+        .ok (.next (setAddrEnv ad env)) := by
+      simp [AS, nth, Src.TransportLayerLogic_set_address, execStmt, eval, evalArgs, set_get, hE.phys,
+        evalBuiltin_none "self.address.get_rx_arbitration_id" _ (by decide),
+        hrx ((env.set "self.address" (.meth "address")).set "txid" (pint (ad.tx.txId .physical))) (by simp [set_get]), setAddrEnv]
+    rw [step_next rfl s2, step_next rfl s3, step_next rfl s4]
+    rw [step_next rfl (warn_stmt _ _ "txid" (ad.tx.txId .physical) (by simp [setAddrEnv, set_get]))]
+    rw [step_next rfl (warn_stmt _ _ "rxid" (ad.rx.rxId .physical) (by simp [setAddrEnv, set_get]))]
+    rfl
+  cases arg with
+  | other =>
+    exact runFn_err (step_err (b := Src.TransportLayerLogic_set_address) (n := 0) rfl s0)
+  | asym ad =>
+    have s1 : execStmt (setAddrMeths (.asym ad)) env (AS 1) = .ok (.next env) := by
+      have hp : ∀ e, (setAddrMeths (.asym ad)).fn "address.is_partial_address" [] e = .ok (pbool false) := fun _ => rfl
+      simp [AS, nth, Src.TransportLayerLogic_set_address, execStmt, execBlock, eval, evalArgs,
+        evalBuiltin_none "address.is_partial_address" _ (by decide), hp]
+    apply runFn_next
+    show execBlock _ env (AR 0) = _
+    rw [step_next rfl s0, step_next rfl s1]
+    exact rest ad rfl
+  | sym h =>
+    have hp : ∀ e, (setAddrMeths (.sym h)).fn "address.is_partial_address" [] e = .ok (pbool (h.txOnly || h.rxOnly)) := fun _ => rfl
+    have s1 : execStmt (setAddrMeths (.sym h)) env (AS 1) =
+        if (h.txOnly || h.rxOnly) = true then .error (.exc .ValueError) else .ok (.next env) := by
+      cases hc : (h.txOnly || h.rxOnly) <;>
+      simp [AS, nth, Src.TransportLayerLogic_set_address, execStmt, execBlock, eval, evalArgs,
+        evalBuiltin_none "address.is_partial_address" _ (by decide), hp, hc]
+    cases hc : (h.txOnly || h.rxOnly)
+    · have hs : setAddrSpec (.sym h) = .ok { tx := h, rx := h } := by
+        have : (h.rxOnly || h.txOnly) = false := by rw [Bool.or_comm]; exact hc
+        simp [setAddrSpec, mkSym, this]
+      rw [hs]
+      rw [hc] at s1
+      apply runFn_next
+      show execBlock _ env (AR 0) = _
+      rw [step_next rfl s0, step_next rfl s1]
+      exact rest _ hs
+    · have hs : setAddrSpec (.sym h) = .error .ValueError := by
+        have : (h.rxOnly || h.txOnly) = true := by rw [Bool.or_comm]; exact hc
+        simp [setAddrSpec, mkSym, this]
+      rw [hs]
+      rw [hc] at s1
+      apply runFn_err
+      show execBlock _ env (AR 0) = _
+      rw [step_next rfl s0]
+      exact step_err rfl s1
+
+/-- **`set_address(Address)` = `mkSym`** -/
+theorem set_address_sym_agrees (h : Half) (env : Env) (hE : SetAddrEnv env) :
+    runFn (setAddrMeths (.sym h)) env Src.TransportLayerLogic_set_address =
+      match mkSym h with
+      | .ok ad => .ok (pnone, setAddrEnv ad env)
+      | .error _ => .error (.exc .ValueError) :=
+  set_address_agrees (.sym h) env hE
+
+/-- an `AsymmetricAddress` is always accepted (it is never partial) -/
+theorem set_address_asym_agrees (ad : Addr) (env : Env) (hE : SetAddrEnv env) :
+    runFn (setAddrMeths (.asym ad)) env Src.TransportLayerLogic_set_address = .ok (pnone, setAddrEnv ad env) :=
+  set_address_agrees (.asym ad) env hE
+
+theorem set_address_rejects_non_address (env : Env) (hE : SetAddrEnv env) :
+    runFn (setAddrMeths .other) env Src.TransportLayerLogic_set_address = .error (.exc .ValueError) :=
+  set_address_agrees .other env hE
+
+/-- frame: only `self.address` and the two locals are written -/
+theorem setAddrEnv_frame (ad : Addr) (env : Env) (k : String) (h1 : k ≠ "self.address") (h2 : k ≠ "txid") (h3 : k ≠ "rxid") :
+    setAddrEnv ad env k = env k := by
+  simp [setAddrEnv, set_get, h1, h2, h3]
+
+example : SetAddrEnv (envOf [("address", .meth "address"), ("isotp.TargetAddressType.Physical", tatPV .physical)]) := ⟨rfl, rfl⟩
+
+/-! ## D. `load_params`
+
+  `self.params.validate()`, then the two receive timers and the rate limiter are REBUILT from the parameters:
+  `Timer(timeout=float(ms) / 1000)` twice, `RateLimiter(mean_bitrate=…, window_size_sec=…)`, then `enable()` / `disable()`.
+
+  The argument `float(ms) / 1000` is inside the subset once `float(x)` of an `int` is taken to be numerically `x` (as in
+  LayerTxHelpers.lean): the interpreter's `/` then gives the exact rational `ms/1000` seconds.  What the two constructors do with their
+  arguments is NOT in the dump (`Timer.__init__` stores `int(timeout * 1e9)` nanoseconds - a float computation, outside the subset; its
+  result is by construction of the harness the model's `cfg.tFc` / `cfg.tCf`, DESIGN 3.1).  The constructed objects are therefore shown
+  by what they were built FROM: a `Timer` as the list `[start_time, timeout]` = `[None, ms/1000]` (a fresh timer is stopped), the
+  `RateLimiter` as an opaque object whose `enabled` flag is the key `self.rate_limiter.enabled`, written by `enable()` / `disable()`
+  (`ratelimiter_enable_agrees` / `ratelimiter_disable_agrees`, LayerTxHelpers.lean; after a successful `validate()` the limiter can be
+  enabled: `validate` checks that bitrate and window are positive).  So the theorem says: WHICH parameter goes to WHICH timer (fc / cf not
+  swapped, milliseconds divided by 1000), that the limiter is built from `rate_limit_max_bitrate`, `rate_limit_window_size` in that
+  order, and that it ends enabled exactly when `rate_limit_enable` - the model's `State.init`: `timerFc := {timeout := c.tFc}` (stopped),
+  `timerCf := {timeout := c.tCf}` (stopped), `rl := {enabled := c.rlEnable}`. -/
+
+/-- a freshly constructed `Timer(timeout = n/d seconds)`: stopped -/
+def timerObj (n : Int) (d : Nat) : PV := .list [.py .none, .py (.float n d)]
+
+/-- the collaborators of `load_params`; `valid` = what `self.params.validate()` finds, `br`, `win` = the values the limiter is
+    expected to be built from (anything else is an error of the presentation, not of Python) -/
+def loadMeths (valid : Bool) (br win : PV) : Meths where
+  fn := fun name args _ =>
+    match name, args with
+    | "float", [.sc (.py (.int i))] => .ok (pint i)
+    | "Timer#timeout", [.sc (.py (.float n d))] => .ok (timerObj n d)
+    | "RateLimiter#mean_bitrate#window_size_sec", [b, w] =>
+      if b = br ∧ w = win then .ok (.meth "RateLimiter") else .error (.unsupported "RateLimiter built from other values")
+    | n, _ => .error (.unsupported ("call " ++ n))
+  proc := fun name args env =>
+    match name, args with
+    | "self.params.validate", [] => if valid then .ok env else .error (.exc .ValueError)
+    | "self.rate_limiter.enable", [] =>
+      if env "self.rate_limiter" = some (.meth "RateLimiter") then .ok (env.set "self.rate_limiter.enabled" (pbool true))
+      else .error (.exc .AttributeError)
+    | "self.rate_limiter.disable", [] =>
+      if env "self.rate_limiter" = some (.meth "RateLimiter") then .ok (env.set "self.rate_limiter.enabled" (pbool false))
+      else .error (.exc .AttributeError)
+    | n, _ => .error (.unsupported ("call " ++ n))
+
+/-- what `load_params` reads -/
+structure LoadEnv (msFc msCf : Int) (br win : PV) (enable : Bool) (env : Env) : Prop where
+  fc : env "self.params.rx_flowcontrol_timeout" = some (pint msFc)
+  cf : env "self.params.rx_consecutive_frame_timeout" = some (pint msCf)
+  br : env "self.params.rate_limit_max_bitrate" = some br
+  win : env "self.params.rate_limit_window_size" = some win
+  en : env "self.params.rate_limit_enable" = some (pbool enable)
+
+/-- the environment `load_params` leaves -/
+def loadEnv (msFc msCf : Int) (enable : Bool) (env : Env) : Env :=
+  (((env.set "self.timer_rx_fc" (timerObj msFc 1000)).set "self.timer_rx_cf" (timerObj msCf 1000)).set
+    "self.rate_limiter" (.meth "RateLimiter")).set "self.rate_limiter.enabled" (pbool enable)
+
+namespace Send
+abbrev LS (n : Nat) : PStmt := nth Src.TransportLayerLogic_load_params n
+abbrev LR (n : Nat) : PBlock := drop Src.TransportLayerLogic_load_params n
+
+theorem truediv_1000 (x : Int) : evalBinop .truediv (pint x) (pint 1000) = .ok (.sc (.py (.float x 1000))) := rfl
+
+/-- `self.<t> = Timer(timeout=float(self.params.<p>) / 1000)` -/
+theorem timer_stmt (valid : Bool) (br win : PV) (env : Env) (t p : String) (ms : Int) (h : env p = some (pint ms)) :
+    execStmt (loadMeths valid br win) env
+      (.assign t (.call "Timer#timeout" (.cons (.binop .truediv (.call "float" (.cons (.var p) .nil)) (.int 1000)) .nil))) =
+      .ok (.next (env.set t (timerObj ms 1000))) := by
+  have hf : ∀ (i : Int) e, (loadMeths valid br win).fn "float" [pint i] e = .ok (pint i) := fun _ _ => rfl
+  have ht : ∀ (n : Int) (d : Nat) e, (loadMeths valid br win).fn "Timer#timeout" [.sc (.py (.float n d))] e = .ok (timerObj n d) :=
+    fun _ _ _ => rfl
+  simp [execStmt, eval, evalArgs, h, evalBuiltin_none "float" _ (by decide), evalBuiltin_none "Timer#timeout" _ (by decide), hf,
+    truediv_1000, ht]
+end Send
+
+/-- **`load_params`**, for all parameter values: `ValueError` when `validate()` raises; otherwise `None` and `loadEnv` -/
+theorem load_params_agrees (valid : Bool) (msFc msCf : Int) (br win : PV) (enable : Bool) (env : Env)
+    (hE : LoadEnv msFc msCf br win enable env) :
+    runFn (loadMeths valid br win) env Src.TransportLayerLogic_load_params =
+      if valid then .ok (pnone, loadEnv msFc msCf enable env) else .error (.exc .ValueError) := by
+  have hv : ∀ e, (loadMeths valid br win).proc "self.params.validate" [] e = if valid then .ok e else .error (.exc .ValueError) :=
+    fun _ => rfl
+  have s0 : execStmt (loadMeths valid br win) env (LS 0) = if valid then .ok (.next env) else .error (.exc .ValueError) := by
+    cases valid <;>
+    simp [LS, nth, Src.TransportLayerLogic_load_params, execStmt, evalArgs, evalBuiltin_none "self.params.validate" _ (by decide), hv]
+  cases valid with
+  | false => exact runFn_err (step_err (b := Src.TransportLayerLogic_load_params) (n := 0) rfl s0)
+  | true =>
+    simp only [if_true] at s0 ⊢
+    have hr : ∀ e, (loadMeths true br win).fn "RateLimiter#mean_bitrate#window_size_sec" [br, win] e = .ok (.meth "RateLimiter") := by
+      intro e
+      show (if br = br ∧ win = win then Except.ok (PV.meth "RateLimiter") else _) = _
+      rw [if_pos ⟨rfl, rfl⟩]
+    have s3 : execStmt (loadMeths true br win)
+        ((env.set "self.timer_rx_fc" (timerObj msFc 1000)).set "self.timer_rx_cf" (timerObj msCf 1000)) (LS 3) =
+        .ok (.next (((env.set "self.timer_rx_fc" (timerObj msFc 1000)).set "self.timer_rx_cf" (timerObj msCf 1000)).set
+          "self.rate_limiter" (.meth "RateLimiter"))) := by
+      simp [LS, nth, Src.TransportLayerLogic_load_params, execStmt, eval, evalArgs, set_get, hE.br, hE.win,
+        evalBuiltin_none "RateLimiter#mean_bitrate#window_size_sec" _ (by decide), hr]
+    have hen : ∀ e, e "self.rate_limiter" = some (.meth "RateLimiter") →
+        (loadMeths true br win).proc "self.rate_limiter.enable" [] e = .ok (e.set "self.rate_limiter.enabled" (pbool true)) := by
+      intro e he
+      show (if e "self.rate_limiter" = some (.meth "RateLimiter") then Except.ok (e.set "self.rate_limiter.enabled" (pbool true))
+        else _) = _
+      rw [if_pos he]
+    have hdis : ∀ e, e "self.rate_limiter" = some (.meth "RateLimiter") →
+        (loadMeths true br win).proc "self.rate_limiter.disable" [] e = .ok (e.set "self.rate_limiter.enabled" (pbool false)) := by
+      intro e he
+      show (if e "self.rate_limiter" = some (.meth "RateLimiter") then Except.ok (e.set "self.rate_limiter.enabled" (pbool false))
+        else _) = _
+      rw [if_pos he]
+    have s4 : execStmt (loadMeths true br win)
+        (((env.set "self.timer_rx_fc" (timerObj msFc 1000)).set "self.timer_rx_cf" (timerObj msCf 1000)).set
+          "self.rate_limiter" (.meth "RateLimiter")) (LS 4) = .ok (.next (loadEnv msFc msCf enable env)) := by
+      have he3 : (((env.set "self.timer_rx_fc" (timerObj msFc 1000)).set "self.timer_rx_cf" (timerObj msCf 1000)).set
+          "self.rate_limiter" (.meth "RateLimiter")) "self.rate_limiter" = some (.meth "RateLimiter") := by simp [set_get]
+      cases enable <;>
+      simp [LS, nth, Src.TransportLayerLogic_load_params, execStmt, execBlock, eval, evalArgs, set_get, hE.en,
+        evalBuiltin_none "self.rate_limiter.enable" _ (by decide), evalBuiltin_none "self.rate_limiter.disable" _ (by decide),
+        hen _ he3, hdis _ he3, loadEnv]
+    apply runFn_next
+    show execBlock _ env (LR 0) = _
+    rw [step_next rfl s0]
+    rw [step_next (b := Src.TransportLayerLogic_load_params) (n := 1) rfl
+      (timer_stmt true br win env "self.timer_rx_fc" "self.params.rx_flowcontrol_timeout" msFc hE.fc)]
+    rw [step_next (b := Src.TransportLayerLogic_load_params) (n := 2) rfl
+      (timer_stmt true br win _ "self.timer_rx_cf" "self.params.rx_consecutive_frame_timeout" msCf (by simp [set_get, hE.cf]))]
+    rw [step_next rfl s3, step_next rfl s4]
+    rfl
+
+/-- what `loadEnv` shows: the two timers are stopped, their timeouts are the parameters in seconds, the limiter's flag is the model's
+    `(State.init c a).rl.enabled` when `rate_limit_enable` is `c.rlEnable` -/
+theorem loadEnv_shows (msFc msCf : Int) (c : Cfg) (a : Addr) (env : Env) :
+    loadEnv msFc msCf c.rlEnable env "self.timer_rx_fc" = some (.list [.py .none, .py (.float msFc 1000)]) ∧
+    loadEnv msFc msCf c.rlEnable env "self.timer_rx_cf" = some (.list [.py .none, .py (.float msCf 1000)]) ∧
+    loadEnv msFc msCf c.rlEnable env "self.rate_limiter" = some (.meth "RateLimiter") ∧
+    loadEnv msFc msCf c.rlEnable env "self.rate_limiter.enabled" = some (pbool (State.init c a).rl.enabled) ∧
+    (State.init c a).timerFc.start = none ∧ (State.init c a).timerCf.start = none ∧
+    ∀ k, k ∉ ["self.timer_rx_fc", "self.timer_rx_cf", "self.rate_limiter", "self.rate_limiter.enabled"] →
+      loadEnv msFc msCf c.rlEnable env k = env k := by
+  refine ⟨by simp [loadEnv, set_get, timerObj], by simp [loadEnv, set_get, timerObj], by simp [loadEnv, set_get],
+    by simp [loadEnv, set_get, State.init], rfl, rfl, ?_⟩
+  intro k hk
+  simp only [List.mem_cons, List.not_mem_nil, or_false, not_or] at hk
+  simp [loadEnv, set_get, hk]
+
+example : LoadEnv 1000 1000 (pint 100000000) (.sc (.py (.float 1 5))) false
+    (envOf [("self.params.rx_flowcontrol_timeout", pint 1000), ("self.params.rx_consecutive_frame_timeout", pint 1000),
+      ("self.params.rate_limit_max_bitrate", pint 100000000), ("self.params.rate_limit_window_size", .sc (.py (.float 1 5))),
+      ("self.params.rate_limit_enable", pbool false)]) := ⟨rfl, rfl, rfl, rfl, rfl⟩
+
+/-! ## E. `FiniteByteGenerator`
+
+  `remaining_size` / `depleted` / `total_length` are in LayerTxHelpers.lean (`fbg_*_agrees`).  `__init__`
+  (`Src.FiniteByteGenerator_init`), which `send` reaches through `SendRequest.__init__`: -/
+
+/-- `isinstance(gen, types.GeneratorType)`, given -/
+def fbgInitMeths (isGen : Bool) : Meths where
+  fn := fun name args _ =>
+    match name, args with
+    | "isinstance_GeneratorType", [_] => .ok (pbool isGen)
+    | n, _ => .error (.unsupported ("call " ++ n))
+  proc := fun n _ _ => .error (.unsupported ("call " ++ n))
+
+/-- the declared size: accepted exactly when it is a non-negative `int` (`bool` counts, as in Python) -/
+def sizeOk (v : PV) : Bool :=
+  match v with
+  | .sc sc => sc.isInt && decide (0 ≤ sc.intVal)
+  | _ => false
+
+/-- **`FiniteByteGenerator.__init__(gen, size)`** for EVERY value of `size`: `ValueError` when `gen` is not a generator, when `size` is
+    not an `int`, or when it is negative; otherwise the object of a fresh request: `_size = size`, `_consumed = 0`, `_depleted = False`
+    (the model's `Req` with `consumed := 0`, `depletedFlag := false`) -/
+theorem fbg_init_agrees (isGen : Bool) (gen sizev : PV) (env : Env) (h1 : env "gen" = some gen) (h2 : env "size" = some sizev) :
+    runFn (fbgInitMeths isGen) env Src.FiniteByteGenerator_init =
+      if isGen && sizeOk sizev then
+        .ok (pnone, (((env.set "self._gen" gen).set "self._size" sizev).set "self._consumed" (pint 0)).set "self._depleted" (pbool false))
+      else .error (.exc .ValueError) := by
+  have hg : ∀ v e, (fbgInitMeths isGen).fn "isinstance_GeneratorType" [v] e = .ok (pbool isGen) := fun _ _ => rfl
+  cases isGen with
+  | false =>
+    simp [runFn, Src.FiniteByteGenerator_init, execBlock, execStmt, eval, evalArgs, h1,
+      evalBuiltin_none "isinstance_GeneratorType" _ (by decide), hg]
+  | true =>
+    have s0 : execStmt (fbgInitMeths true) env (nth Src.FiniteByteGenerator_init 0) = .ok (.next env) := by
+      simp [nth, Src.FiniteByteGenerator_init, execBlock, execStmt, eval, evalArgs, h1,
+        evalBuiltin_none "isinstance_GeneratorType" _ (by decide), hg]
+    have hb : ∀ v, evalBuiltin "isinstance_int" [v] = some (.ok (pbool (match v with | .sc s => s.isInt | _ => false))) := by
+      intro v; cases v <;> simp [evalBuiltin]
+    have s1 : execStmt (fbgInitMeths true) env (nth Src.FiniteByteGenerator_init 1) =
+        if (match sizev with | .sc s => s.isInt | _ => false) then .ok (.next env) else .error (.exc .ValueError) := by
+      simp only [nth, Src.FiniteByteGenerator_init, execStmt, eval, evalArgs, h2, ok_bind, hb, truthy_pbool, execBlock]
+      cases (match sizev with | .sc s => s.isInt | _ => false) <;> rfl
+    show runFn _ env (drop Src.FiniteByteGenerator_init 0) = _
+    unfold runFn
+    rw [step_next rfl s0]
+    cases sizev with
+    | sc sc =>
+      cases hi : sc.isInt with
+      | false =>
+        simp only [hi] at s1
+        rw [step_err rfl s1]
+        simp [sizeOk, hi]
+      | true =>
+        simp only [hi] at s1
+        rw [step_next rfl s1]
+        -- an `int` (or `bool`): the comparison with 0 is defined
+        have hcmp : evalCmp .lt (.sc sc) (pint 0) = .ok (pbool (decide (sc.intVal < 0))) := by
+          cases sc with
+          | enum c m => simp [Sc.isInt] at hi
+          | py v =>
+            cases v <;> simp [Sc.isInt, PyVal.isInt] at hi <;>
+            simp [evalCmp, isNumber, numLt, PyVal.isInt, PyVal.intVal, Sc.intVal, Except.map] <;> rfl
+        have s2 : execStmt (fbgInitMeths true) env (nth Src.FiniteByteGenerator_init 2) =
+            if sc.intVal < 0 then .error (.exc .ValueError) else .ok (.next env) := by
+          simp only [nth, Src.FiniteByteGenerator_init, execStmt, eval, h2, ok_bind, hcmp, truthy_pbool, execBlock]
+          by_cases hc : sc.intVal < 0 <;> simp [hc]
+        by_cases hc : sc.intVal < 0
+        · rw [if_pos hc] at s2
+          rw [step_err rfl s2]
+          have : ¬ (0 ≤ sc.intVal) := by omega
+          simp [sizeOk, hi, this]
+        · rw [if_neg hc] at s2
+          rw [step_next rfl s2]
+          have : 0 ≤ sc.intVal := by omega
+          simp [sizeOk, hi, this, drop, Src.FiniteByteGenerator_init, execBlock, execStmt, eval, h1, h2, set_get]
+    | list xs => simp only at s1; rw [step_err rfl s1]; simp [sizeOk]
+    | bytes b => simp only at s1; rw [step_err rfl s1]; simp [sizeOk]
+    | str b => simp only at s1; rw [step_err rfl s1]; simp [sizeOk]
+    | meth b => simp only at s1; rw [step_err rfl s1]; simp [sizeOk]
+
+/-- the constructor primitive of `sendMeths` raises exactly when `FiniteByteGenerator.__init__` does on a generator and the declared
+    size `a.size` -/
+theorem sendMeths_ctor_is_fbg_init (s : State) (a : State.SendArgs) (dv gen : PV) (t : Tat) (env e : Env)
+    (h1 : e "gen" = some gen) (h2 : e "size" = some (pint a.size)) :
+    ((sendMeths s a).fn "self.SendRequest#data#target_address_type" [dv, tatPV t] env = .error (.exc .ValueError)) ↔
+    (runFn (fbgInitMeths true) e Src.FiniteByteGenerator_init = .error (.exc .ValueError)) := by
+  rw [meths_ctor, fbg_init_agrees true gen (pint a.size) e h1 h2]
+  have : sizeOk (pint a.size) = decide (0 ≤ a.size) := by
+    simp [sizeOk, Sc.isInt, Sc.intVal, PyVal.isInt, PyVal.intVal]; rfl
+  by_cases hc : a.size < 0
+  · have h0 : ¬ 0 ≤ a.size := by omega
+    simp [hc, this, h0]
+  · have h0 : 0 ≤ a.size := by omega
+    simp [hc, this, h0]
+
 end Isotp.PyAgree
